@@ -269,7 +269,12 @@ class Gen:
             import copy
             cands = [i for i in range(1, len(out)) if out[i]['k'] != 'dangling']
             if cands:
-                i = g.choice(cands); out.insert(g.randint(i + 1, len(out)), copy.deepcopy(out[i]))
+                i = g.choice(cands); dup = copy.deepcopy(out[i])
+                if dup['k'] == 'block' and cname(dup['open']) in ('function', 'macro') and g.random() < 0.6:
+                    # the two variants agree in name, parameters and doccomment and differ in their bodies: only one parses keyword arguments
+                    which = dup if g.random() < 0.7 else out[i]
+                    which['body'] = [self.item('cpa', depth + 1, False, False, False)] + [b for b in which['body'] if not (b['k'] == 'cmd' and cname(b['call']) == 'cmake_parse_arguments')]
+                out.insert(g.randint(i + 1, len(out)), dup)
         # a dangling doccomment must be followed by another doccomment or the end of the enclosing list's text:
         # keep it well-formed by giving the next item a doccomment, or by moving it to the very end of the module
         fixed = []
@@ -321,6 +326,8 @@ class Gen:
                 for j in range(1, len(toks)):
                     if g.random() < 0.6: toks[j] = ['b', g.choice(LONG_BARE)] if g.random() < 0.5 else ['q', g.choice(LONG_QUOTED)]
                 if len(toks) == 1 or g.random() < 0.3: toks += [['b', g.choice(LONG_BARE)] for _ in range(g.randint(1, 12))]
+            if len(toks) == 2 and g.random() < 0.06: toks[1] = ['q', g.choice(['Hello, \\\nworld', 'a\\\n   b\\\nc', '\\\n', 'x \\\n'])]     # quoted line continuations
+            if len(toks) == 2 and g.random() < 0.04: toks[1] = g.choice([['b', '--------'], ['q', '===='], ['b', '....'], ['q', '~~~~~']])   # a value that is reST markup (K10)
             if len(toks) >= 2 and g.random() < 0.1:      # the cache form of set(): to CMinx the keywords are values like any other
                 toks += [self.tok('CACHE'), self.tok(g.choice(['STRING', 'BOOL', 'PATH', 'INTERNAL'])), ['q', g.choice(['where it lives', '', 'help: text'])]] + ([self.tok('FORCE')] if g.random() < 0.5 else [])
             elif len(toks) >= 2 and g.random() < 0.05: toks.append(self.tok(g.choice(['PARENT_SCOPE', 'FORCE', 'CACHE'])))
